@@ -12,7 +12,7 @@ from ..core import hx
 
 LOC_POOL = ["en", "pl", "de", "fr"]
 ID_POOL = ["a", "b", "c", "d", "e"]
-MUTATORS = ("add", "addm", "rm", "rmm", "chg", "async")
+MUTATORS = ("add", "addm", "rm", "rmm", "rmp", "chg", "async")
 NEED_BUNDLES = ("pfs", "pfa", "bun", "req", "hold")
 
 
@@ -143,7 +143,7 @@ class C18(Base):
             elif r < 0.22:
                 segs.append("rm:" + self.gen_id(rng))
             elif r < 0.26:
-                segs.append("rmm:" + self.gen_ids(rng))
+                segs.append(rng.choice(["rmm:", "rmm:", "rmp:"]) + self.gen_ids(rng))
             elif r < 0.35:
                 segs.append("loc:" + self.gen_locales(rng))
                 if rng.random() < 0.75:
@@ -276,7 +276,7 @@ class C18(Base):
                 for v, o_ in parse_ids(p[1]):
                     sim.ids.setdefault(v, o_)
                 sim.change()
-            elif kind in ("rm", "rmm"):
+            elif kind in ("rm", "rmm", "rmp"):
                 for v, _ in parse_ids(p[1]):
                     sim.ids.pop(v, None)
                 sim.change()
